@@ -26,6 +26,7 @@ type pqwK1 struct {
 	lastW    *pq.Writer
 	chainIDs []uint64
 	oldTail  uint64 // tail page of the queue root before the call
+	cbBefore uint   // total reported by the Flushed callback before the call
 	ok       bool   // the model is in step with the implementation
 	n        int
 }
@@ -230,6 +231,7 @@ func (k *pqwK1) hook(e *pqengine.Engine, phase, kind string, data []byte, err er
 	t0 := time.Now()
 	defer func() { pqwSpent += time.Since(t0) }()
 	if phase == "before" {
+		k.cbBefore = e.CbFlushed
 		k.sync(e)
 		return
 	}
@@ -286,6 +288,16 @@ func (k *pqwK1) hook(e *pqengine.Engine, phase, kind string, data []byte, err er
 		}
 		if mod != impl {
 			continue
+		}
+		// the Flushed callback: invoked with the model's count, or not at all
+		wantCb := -1
+		if j := strings.Index(res, "cb="); j >= 0 {
+			fmt.Sscan(res[j+3:], &wantCb)
+		}
+		gotCb := int(e.CbFlushed - k.cbBefore)
+		if (wantCb < 0 && gotCb != 0) || (wantCb >= 0 && gotCb != wantCb) {
+			k.fail(e, "%s: the Flushed callback reported %d events during the call, the model %d (-1: no callback)", kind, gotCb, wantCb)
+			return
 		}
 		k.m.Ask("pqw_commit")
 		k.rep.count("k1:pq-writer/"+kind+"/"+strings.SplitN(strings.TrimPrefix(strings.TrimPrefix(res, "ok "), "err "), " ", 2)[0], 1)
